@@ -1,5 +1,6 @@
 import OmplModel.Proofs.SpaceInterpExamples
 import OmplModel.Generated.RwSets
+import OmplModel.Proofs.SpaceInterpWeights
 /-!
 C07 — property theorems for `StateSpace::interpolate` (model: `Model/SpaceInterp.lean`).
 
@@ -350,6 +351,43 @@ theorem interp_inbounds_all (sp : Space ℝ) (a b : St ℝ) (t : ℝ)
 example : inBounds allSp (interpolate allSp allA allB (1 / 3)) = true :=
   interp_inbounds_all _ _ _ _ allA_wt allB_wt allA_inB allB_inB allA_unit allB_unit
     allA_klein allB_klein (by norm_num) (by norm_num)
+
+/-! ## compound weights are irrelevant (zero-weight subspaces included)
+
+`interp_zero`, `interp_one`, `interp_inbounds`, `interp_reparam` (and the SO(3)/Klein variants) above
+quantify over EVERY `Space`, hence over every weight in every `ccons` at every nesting level — 0, a
+weight below DBL_EPSILON, negative, anything: the weights do not occur in `interpolateW`, `inBounds`,
+`eqStates` or `wellTyped` at all (only in `dist`, where a zero-weight component contributes 0 to
+`interp_dist_prop`).  The corollary below makes that explicit: rewriting all weights by any function
+(e.g. to 0) changes neither the interpolated state nor its bounds / equality / shape predicates.  An
+implementation that skips components of small weight does not refine this model: the correspondence run
+(zero and denormal weights at every level, sentinel-filled output) and the per-component oracle see it. -/
+
+/-- [AF] the interpolated state, `satisfiesBounds`, `equalStates` and the shape do not depend on any
+compound weight, at any nesting level — any `Num`, any SO(2) leaf `f`, any Klein wrap `wr` -/
+theorem interp_compound_weight_irrelevant {α : Type} [Num α] (f : α → α → α → α) (wr : α → α)
+    (g : α → α) (sp : Space α) (a b : St α) (t : α) :
+    interpolateW f wr (mapWeights g sp) a b t = interpolateW f wr sp a b t
+      ∧ inBounds (mapWeights g sp) a = inBounds sp a
+      ∧ eqStates (mapWeights g sp) a b = eqStates sp a b
+      ∧ wellTyped (mapWeights g sp) a = wellTyped sp a :=
+  ⟨interpolateW_mapWeights f wr g sp a b t, inBounds_mapWeights g sp a, eqStates_mapWeights g sp a b,
+    wellTyped_mapWeights g sp a⟩
+
+/-- non-vacuity: the nested compound with ALL weights set to 0 still ends exactly on `to` … -/
+example : interpolate (mapWeights (fun _ => 0) nested) nestedA nestedB 1 = nestedB := by
+  show interpolateW so2Interp so2Wrap (mapWeights (fun _ => 0) nested) nestedA nestedB 1 = nestedB
+  rw [(interp_compound_weight_irrelevant so2Interp so2Wrap (fun _ => 0) nested nestedA nestedB 1).1]
+  exact interp_one _ _ _ nested_ok.1 nestedA_wt nestedB_wt nestedB_inB
+/-- … and `mapWeights` really rewrites the weights (the head weight 2 of `nested` becomes 0) -/
+example : ∃ h tl, mapWeights (fun _ => (0 : ℝ)) nested = .ccons 0 h tl := ⟨_, _, rfl⟩
+/-- the general theorems applied directly to a space written with zero weights: SE(2) with weights 0, 0 -/
+example : interpolate (.ccons 0 (.rv [0, 0] [1, 1]) (.ccons 0 .so2 .cnil)) se2A se2B 1 = se2B :=
+  interp_one _ _ _ (by simp [noSO3Klein]) (by simp [se2A, wellTyped]) (by simp [se2B, wellTyped])
+    (by simp only [se2B, inBounds, rvInB, three_inB.2, RealNum.dblEps_eq]; norm_num)
+example : interpolate (.ccons 0 (.rv [0, 0] [1, 1]) (.ccons 0 .so2 .cnil)) se2A se2B 0 = se2A :=
+  interp_zero _ _ _ (by simp [noKlein]) (by simp [se2A, wellTyped]) (by simp [se2B, wellTyped])
+    (by simp only [se2A, inBounds, rvInB, three_inB.1, RealNum.dblEps_eq]; norm_num)
 
 /-! ## aliasing (implementation-level clause; generated input)
 
